@@ -35,12 +35,31 @@ var uniFns = map[string]func(rune) rune{
 	"ToTitle": unicode.ToTitle,
 }
 
-func evalPred(name string, k uint64) bool {
-	f := uniPreds[name]
-	if f == nil {
-		panic("unknown predicate " + name)
+func init() {
+	for n, f := range uniFns {
+		f := f
+		uniPreds[n+"Fixed"] = func(r rune) bool { return f(r) == r }
 	}
-	return f(rune(int32(uint32(k))))
+}
+
+// predFunc resolves a predicate name; "<Fn>#D:<delta>" means Fn(r)-r == delta.
+func predFunc(name string) func(rune) bool {
+	if f := uniPreds[name]; f != nil {
+		return f
+	}
+	if i := strings.Index(name, "#D:"); i > 0 {
+		f := uniFns[name[:i]]
+		var d int
+		fmt.Sscanf(name[i+3:], "%d", &d)
+		if f != nil {
+			return func(r rune) bool { return r >= 0 && r <= 0x10FFFF && int(f(r))-int(r) == d }
+		}
+	}
+	panic("unknown predicate " + name)
+}
+
+func evalPred(name string, k uint64) bool {
+	return predFunc(name)(rune(int32(uint32(k))))
 }
 
 func evalFn32(name string, k uint64) uint64 {
@@ -101,7 +120,8 @@ func uniRanges(name string) []urange {
 		return v.([]urange)
 	}
 	var rs []urange
-	if f, ok := uniPreds[name]; ok {
+	if _, isFn := uniFns[name]; !isFn {
+		f := predFunc(name)
 		in := false
 		var lo uint32
 		for r := uint32(0); r <= 0x110000; r++ {
@@ -145,7 +165,8 @@ func uniRanges(name string) []urange {
 // true fact about function/predicate `name` and pins its value on a whole range around v.
 func uniLemma(name string, v uint64, arg, app string) string {
 	rs := uniRanges(name)
-	_, isPred := uniPreds[name]
+	_, isFn := uniFns[name]
+	isPred := !isFn
 	// find first range with hi >= v
 	lo, hi := 0, len(rs)
 	for lo < hi {
@@ -202,20 +223,33 @@ func uniLemma(name string, v uint64, arg, app string) string {
 func unicodeFullSMT(name string) string {
 	rs := uniRanges(name)
 	var sb strings.Builder
-	if _, ok := uniPreds[name]; ok {
-		sb.WriteString("(define-fun " + name + " ((r (_ BitVec 32))) Bool (or false")
+	if _, isFn := uniFns[name]; !isFn {
+		sb.WriteString("(define-fun |" + name + "| ((r (_ BitVec 32))) Bool (or false")
 		for _, r := range rs {
 			sb.WriteString(" " + rangeCond(r))
 		}
 		sb.WriteString("))\n")
 		return sb.String()
 	}
-	sb.WriteString("(define-fun " + name + " ((r (_ BitVec 32))) (_ BitVec 32) ")
+	// group ranges by delta: f(r) = r + D(r), D an ite over a few dozen wide disjunctions
+	byDelta := map[int32][]urange{}
+	var deltas []int32
 	for _, r := range rs {
-		sb.WriteString("(ite " + rangeCond(r) + fmt.Sprintf(" (bvadd r #x%08x) ", uint32(r.delta)))
+		if _, ok := byDelta[r.delta]; !ok {
+			deltas = append(deltas, r.delta)
+		}
+		byDelta[r.delta] = append(byDelta[r.delta], r)
 	}
-	sb.WriteString("r")
-	sb.WriteString(strings.Repeat(")", len(rs)))
-	sb.WriteString(")\n")
+	sb.WriteString("(define-fun |" + name + "| ((r (_ BitVec 32))) (_ BitVec 32) (bvadd r ")
+	for _, d := range deltas {
+		sb.WriteString("(ite (or false")
+		for _, r := range byDelta[d] {
+			sb.WriteString(" " + rangeCond(r))
+		}
+		sb.WriteString(fmt.Sprintf(") #x%08x ", uint32(d)))
+	}
+	sb.WriteString("#x00000000")
+	sb.WriteString(strings.Repeat(")", len(deltas)))
+	sb.WriteString("))\n")
 	return sb.String()
 }
